@@ -166,6 +166,19 @@ def build_cpp_driver(name, sanitize):
 #   cpp : C17 pipeline
 
 
+def tier_cases():
+    """Number of cases per tier as declared by the monitors (parsed from the harness source)."""
+    out = {}
+    for f in glob.glob(os.path.join(VERIF, "harness", "src", "monitors", "c[0-9][0-9].rs")):
+        m = re.search(r"fn cases\(&self, tier: Tier\) -> u64 \{\s*tier\.pick\(([\d_]+), ([\d_]+)\)", open(f).read())
+        if m:
+            out[os.path.basename(f)[:3].upper()] = dict(quick=int(m.group(1).replace("_", "")), thorough=int(m.group(2).replace("_", "")))
+    return out
+
+
+TIER_CASES = tier_cases()
+
+
 def J(label, kind, scale=1.0, **kw):
     d = dict(label=label, kind=kind, scale=scale)
     d.update(kw)
@@ -174,15 +187,17 @@ def J(label, kind, scale=1.0, **kw):
 
 SOLVER_PROPS = ["C01", "C02", "C03", "C05", "C07", "C08", "C09", "C11", "C14", "C15", "C16"]
 PLANS = {}
+# `cases` for Miri jobs is an absolute number of cases over all shards (generators are in
+# --small mode there); other jobs scale the tier's case count.
 for _p in SOLVER_PROPS:
     PLANS[_p] = {
         "quick": [J("native", "native")],
         "thorough": [J("native", "native"), J("relda", "relda", 0.2)],
     }
-PLANS["C01"]["thorough"] += [J("asan", "asan", 0.05), J("miri", "miri", 0.0004, shards=16)]
+PLANS["C01"]["thorough"] += [J("asan", "asan", 0.05), J("miri", "miri", cases=640, shards=16)]
 PLANS["C04"] = {
     "quick": [J("native", "native"), J("relda", "relda")],
-    "thorough": [J("native", "native"), J("relda", "relda"), J("asan", "asan", 0.05)],
+    "thorough": [J("native", "native"), J("relda", "relda"), J("asan", "asan", 0.05), J("miri", "miri", cases=480, shards=16)],
 }
 PLANS["C06"] = {
     "quick": [J("digest", "digest", 1.0, processes=3)],
@@ -190,7 +205,7 @@ PLANS["C06"] = {
 }
 PLANS["C10"] = {
     "quick": [J("native", "native")],
-    "thorough": [J("native", "native"), J("relda", "relda", 0.2), J("miri", "miri", 0.0004, shards=16)],
+    "thorough": [J("native", "native"), J("relda", "relda", 0.2), J("miri", "miri", cases=320, shards=16)],
 }
 PLANS["C12"] = {
     "quick": [J("native", "native")],
@@ -198,23 +213,23 @@ PLANS["C12"] = {
 }
 PLANS["C13"] = {
     "quick": [J("native", "native")],
-    "thorough": [J("native", "native"), J("relda", "relda", 0.2), J("asan", "asan", 0.05), J("miri", "miri", 0.0005, shards=16)],
+    "thorough": [J("native", "native"), J("relda", "relda", 0.2), J("asan", "asan", 0.05), J("miri", "miri", cases=480, shards=16)],
 }
 PLANS["C17"] = {
     "quick": [J("cpp", "cpp", 1.0)],
     "thorough": [J("cpp", "cpp", 1.0)],
 }
 PLANS["C18"] = {
-    "quick": [J("native", "native"), J("miri", "miri", 0.004, shards=8)],
-    "thorough": [J("native", "native"), J("relda", "relda", 0.3), J("asan", "asan", 0.3), J("miri", "miri", 0.002, shards=16), J("miri-tb", "miri-tb", 0.001, shards=16)],
+    "quick": [J("native", "native"), J("miri", "miri", cases=16, shards=16)],
+    "thorough": [J("native", "native"), J("relda", "relda", 0.3), J("asan", "asan", 0.3), J("miri", "miri", cases=320, shards=16), J("miri-tb", "miri-tb", cases=160, shards=16)],
 }
 PLANS["C19"] = {
-    "quick": [J("native", "native"), J("miri", "miri", 0.004, shards=8)],
-    "thorough": [J("native", "native"), J("relda", "relda", 0.3), J("asan", "asan", 0.2), J("miri", "miri", 0.002, shards=16), J("miri-release", "miri-release", 0.001, shards=16)],
+    "quick": [J("native", "native"), J("miri", "miri", cases=320, shards=16)],
+    "thorough": [J("native", "native"), J("relda", "relda", 0.3), J("asan", "asan", 0.2), J("miri", "miri", cases=3200, shards=16), J("miri-release", "miri-release", cases=1600, shards=16)],
 }
 PLANS["C20"] = {
     "quick": [J("native", "native")],
-    "thorough": [J("native", "native"), J("relda", "relda", 0.2), J("miri", "miri", 0.0003, shards=16)],
+    "thorough": [J("native", "native"), J("relda", "relda", 0.2), J("miri", "miri", cases=320, shards=16)],
 }
 
 LEVELS = {p: "exploration" for p in PLANS}
@@ -274,6 +289,8 @@ def run_rvmon_job(prop, tier, seed, job, jidx):
         if os.path.exists(part):
             os.unlink(part)
         cmd = [binary, prop, "--tier", tier, "--seed", str(jseed), "--scale", str(job["scale"]), "--part", part, "--label", label, "--replay-dir", REPLAY]
+        if jidx > 0 and job["scale"] < 1.0:
+            cmd += ["--floor-scale", "0"]
         env = base_env()
         if kind == "asan":
             env["ASAN_OPTIONS"] = "detect_leaks=1:halt_on_error=1:abort_on_error=0:detect_stack_use_after_return=0"
@@ -288,15 +305,18 @@ def run_rvmon_job(prop, tier, seed, job, jidx):
             part = part_path(prop, label, i)
             if os.path.exists(part):
                 os.unlink(part)
-            args = [prop, "--tier", tier, "--seed", str(jseed), "--scale", str(job["scale"]), "--shard", f"{i}/{shards}", "--threads", "1", "--watchdog", "0", "--part", part, "--label", f"{label}-{i}", "--replay-dir", REPLAY]
+            scale = job["cases"] / TIER_CASES[prop][tier]
+            args = [prop, "--tier", tier, "--seed", str(jseed), "--scale", f"{scale:.9f}", "--shard", f"{i}/{shards}", "--threads", "1", "--watchdog", "0", "--floor-scale", "0", "--small", "--part", part, "--label", f"{label}-{i}", "--replay-dir", REPLAY]
             cmd, env, cwd = miri_command(args, tree_borrows=tb, release=rel)
             code, logp, dt = run_logged(cmd, f"{prop}-{label}-{i}.log", env=env, cwd=cwd, timeout=3 * 3600)
             return dict(label=f"{label}-{i}", code=code, log=logp, part=part, wall_s=dt, cmd="cargo miri run -- " + " ".join(args[:8]), sanitizer=True)
-        first = one(0)
-        results.append(first)
-        if shards > 1:
-            with ThreadPoolExecutor(max_workers=min(JOBS, shards - 1)) as ex:
-                results.extend(ex.map(one, range(1, shards)))
+        # compile once (a run with an unknown property exits immediately), then all shards in parallel
+        wcmd, wenv, wcwd = miri_command(["NOOP"], tree_borrows=tb, release=rel)
+        wcode, wlog, _ = run_logged(wcmd, f"{prop}-{label}-build.log", env=wenv, cwd=wcwd, timeout=3600)
+        if wcode != 3:
+            raise Inconclusive(f"building rvmon for Miri failed (exit {wcode}), see {wlog}")
+        with ThreadPoolExecutor(max_workers=min(JOBS, shards)) as ex:
+            results.extend(ex.map(one, range(shards)))
     else:
         raise Inconclusive(f"unknown job kind {kind}")
     return results
